@@ -196,6 +196,19 @@ def duels():
     for arr in ([0, 1, 2], [2, 1, 0], [1, 2, 0]):
         c3 = [ins((1, 1, 9, 0), 1, A(122)), ins((3, 3, 5, 1), 1, A(123), nh=2), ins((4, 4, 7, 0), 1, A(124, clen=1), nh=3)]
         out.append(case('duel:ecmp_tie:%s' % ''.join(map(str, arr)), [c3[k] for k in arr] + [('restale', False, 3), ('restale', True, 1)]))
+    # ECMP: two paths equal at every step but ONE (the router id aside): the second must stay
+    # out of the ECMP set, whichever step it is; equal at all of them: both are in
+    base = dict(llgr=False, lp=100, segs=[(2, 2)], origin=0, clen=1, oid=None)
+    for st, worse in (('llgr', True), ('lp', 90), ('segs', [(2, 3)]), ('origin', 1), ('role', None), ('stale', None), ('clen', 2), ('none', None)):
+        x = dict(base); y = dict(base)
+        if st not in ('role', 'stale', 'none'):
+            y[st] = worse
+        sx = (1, 1, 5, 0); sy = (2, 2, 9, 2 if st == 'role' else 0)
+        two = [ins(sx, 1, mk(180, x)), ins(sy, 1, mk(181, y), nh=2)]
+        post = [('restale', False, 2)] if st == 'stale' else []
+        for arr in ('xy', 'yx'):
+            ops = list(two) if arr == 'xy' else [two[1], two[0]]
+            out.append(case('duel:ecmp_one_step:%s:%s' % (st, arr), ops + post + [ins((3, 3, 20, 0), 1, mk(182, dict(base, lp=10)), nh=3)]))
     # defaults tie with explicit values: LOCAL_PREF absent = 100, ORIGIN absent = incomplete,
     # CLUSTER_LIST absent = empty, ORIGINATOR_ID absent = router id
     out.append(case('duel:defaults_tie', [ins((1, 1, 9, 0), 1, R.mk_attr(125, lp=None, segs=None, origin=None, clen=None, oid=None)),
